@@ -43,7 +43,7 @@ TIMEOUT = 5.0
 def budget(tier: str) -> dict[str, Any]:
     if tier == "quick":
         return {"shards": 8, "cases": 220}
-    return {"shards": 32, "cases": 5000, "hashseeds": [0, 1, 2, 3]}
+    return {"shards": 32, "cases": 1000, "hashseeds": [0, 1, 2, 3]}
 
 
 def _outcome_vectors(rng: Any, n: int) -> list[list[str]]:
